@@ -412,10 +412,15 @@ func (n *multiScanNode) Kind() string {
 }
 
 func (n *multiScanNode) Close() error {
+	// Close reports the result of closing only: the error of an earlier Init or Next (kept
+	// in n.err) has been returned by that call already, and returning it again made the
+	// readers of this node stop closing their remaining plans.
+	var err error
 	n.countAndCall(&n.closeCount, func() error {
-		return n.scanNode.Close()
+		err = n.scanNode.Close()
+		return err
 	})
-	return n.err
+	return err
 }
 
 func (n *multiScanNode) DocumentMap() *core.DocumentMapping {
